@@ -26,7 +26,7 @@ def canon_fresh(data):
 
 def make_case(r):
     kind = r.choice(['general', 'fresh', 'fresh', 'vars', 'rename', 'enum',
-                     'cc-delay', 'fresh-parse-id'])
+                     'cc-delay', 'fresh-parse-id', 'str-contains'])
     cc_rules = None
     if kind == 'general':
         s = workload.small_script(r, r.choice(['small', 'medium']))
@@ -79,6 +79,24 @@ def make_case(r):
         pred = rules[0]
         extra = ['--disable-all', '--introduce-fresh-variables',
                  '--erase-node']
+    elif kind == 'str-contains':
+        # names that a strings mutator invents for the pieces of a compound
+        # term (strategy ddmin at -j 1 runs in one thread of one process:
+        # node ids, which the names are made of, are the same in every run)
+        a, b, c = r.sample(['a', 'b', 'c', 'sv', 'tw'], 3)
+        lines = ['(set-logic QF_SLIA)'] + [
+            f'(declare-const {v} String)' for v in (a, b, c)] + [
+            f'(assert (str.contains (str.++ {a} {b}) {c}))',
+            f'(assert (str.contains (str.++ {b} "x" {a}) "x"))',
+            '(check-sat)']
+        text = '\n'.join(lines) + '\n'
+        rules = realrun.simple_spec(
+            'scoped has:str.%2B%2B & count:declare-const>=3 & '
+            'count:assert>=2 &')
+        pred = rules[0]
+        extra = ['--disable-all', '--str-contains-to-concat']
+        if r.random() < 0.5:
+            extra += ['--erase-node']
     elif kind == 'enum':
         # enumeration datatype: several default constants of one sort, the
         # command accepts more than one of them
@@ -138,6 +156,8 @@ def make_case(r):
     strat = r.choice(workload.STRATEGIES)
     if kind == 'fresh-parse-id':
         strat = r.choice(['hierarchical', 'hierarchical', 'hybrid'])
+    if kind == 'str-contains':
+        strat = 'ddmin'
     opts = ['--strategy', strat, '-j', '1', '--timeout',
             '0.4' if kind == 'cc-delay' else '20'] + extra + \
         workload.format_options(r)
